@@ -27,7 +27,9 @@ COMPONENTS = {
 }
 ASSUMPTIONS = [
     'reference = fresh compile of the same workbook, each address evaluated once as a cell',
-    'no writes in these histories (C01 owns writes)',
+    'a third of the workbooks have one to three constants written (set_value after the cell was '
+    'evaluated on its own) before or between the first touches: the reference then holds the '
+    'values written so far; everything else about writes is C01\'s',
     'elements of unbounded-range results are compared by position; the extent of the used area '
     '(trailing blank rows/columns) is not compared',
     'on a loaded model only saved cells are read',
@@ -186,6 +188,29 @@ def gen_case(rnd, tier, index):
     cfg['targets'] = targets
     order = [targets[i] for i in perm if i < len(targets)]
     ops = [make_touch(rnd, st, a, universe, has_wb, targets, allowed_unbounded) for a in order]
+    if wrnd.random() < 0.33:
+        # constants that were brought into the model on their own and changed before (or
+        # between) the first touches: whatever is compiled afterwards has to see the new value
+        from . import c01
+        pinned = set(spec.get('pinned', ()))
+        anc = set()
+        for t in targets:
+            anc |= dag.ancestors(t) | {t}
+        consts = [a for a in dag.order if a in universe and a not in pinned and
+                  not wbgen.is_formula_cell(dag.cell[a]) and 'cse' not in dag.cell[a]]
+        near = [a for a in consts if a in anc]
+        writes = []
+        for _ in range(wrnd.choice((1, 1, 2, 3))):
+            pool = near if near and wrnd.random() < 0.8 else consts
+            if not pool:
+                break
+            a = wrnd.choice(pool)
+            v = c01.draw_write(wrnd, dag.cell[a].get('v'))
+            if isinstance(v, str) and v.startswith('='):
+                continue
+            writes.append({'path': 'set', 'a': a, 'v': v})
+        for w in writes:
+            ops.insert(0 if wrnd.random() < 0.6 else wrnd.randint(0, len(ops)), w)
     # then: every target through every path, twice
     for rep in range(2):
         for a in targets:
@@ -213,6 +238,10 @@ def legalise(case):
     for op in case.get('ops', []):
         cells = op.get('addrs') or [op['a']]
         if not all(c in universe for c in cells):
+            continue
+        if op['path'] == 'set':
+            if not wbgen.is_formula_cell(st.dag.cell[op['a']]) and op['a'] not in st.pinned:
+                ops.append(op)
             continue
         if 'rng' in op:
             members = set(st.range_members(op['rng']))
@@ -309,15 +338,23 @@ def run_case(case):
 
     def plan():
         ref = Reference(st.spec, actor=InlineActor())
-        exp = {}
-        for a in st.dag.order:
-            try:
-                exp[a] = ('ok', ref.value(a, {}))
-            except RefError as exc:
-                exp[a] = ('err', str(exc)[:80])
-        return exp
+        states = []
+        overrides = {}
+        for op in [None] + [o for o in ops if o['path'] == 'set']:
+            if op is not None:
+                overrides = dict(overrides)
+                overrides[op['a']] = op['v']
+            exp = {}
+            for a in st.dag.order:
+                try:
+                    exp[a] = ('ok', ref.value(a, overrides))
+                except RefError as exc:
+                    exp[a] = ('err', str(exc)[:80])
+            states.append(exp)
+        return states
 
-    expected = on_fresh_thread(plan, name='ref')
+    exp_states = on_fresh_thread(plan, name='ref')
+    expected = exp_states[0]
     stored = {a: v for a, (k, v) in expected.items()
               if k == 'ok' and wbgen.is_formula_cell(st.dag.cell[a])}
     plugin.reset()
@@ -354,9 +391,28 @@ def run_case(case):
                 violate('exception', -1, {'op': 'load'}, 'from_file works', out, exc=out['exc'])
                 return 'done'
         model = driver.model
+        expected = exp_states[0]
+        n_writes = 0
         for i, op in enumerate(ops):
             if state['violation']:
                 break
+            if op['path'] == 'set':
+                n_writes += 1
+                expected = exp_states[n_writes]
+                seen.clear()
+                count('sets')
+                try:
+                    if op['a'] not in model.cell_map:
+                        model.evaluate(op['a'])
+                        count('probe:written-cell-brought-into-the-model-on-its-own')
+                    if any(t not in model.cell_map for t in cfg.get('targets', ())):
+                        count('probe:write-before-a-target-is-compiled')
+                    model.set_value(op['a'], op['v'])
+                except Exception as exc:   # noqa
+                    violate('exception', i, op, 'set_value works',
+                            f'{type(exc).__name__}: {str(exc)[-200:]}', exc=type(exc).__name__)
+                events.append((i, 'set', op['a'], values.jsonable(op['v'])))
+                continue
             cells = op.get('addrs') or ([op['a']] if 'rng' not in op else
                                         st.range_members(op['rng']))
             if getattr(model.excel, 'workbook', None) is None and any(
